@@ -162,6 +162,16 @@ def check(ctx):
                 l, rr = it.value_of(n.left), it.value_of(n.right)
                 if l is not None and (l.counts_of is not None or l.bincount_of is not None) and div is None:
                     div = (n, l, rr)
+    # a fixed number of leading / trailing entries of the np.unique output must not be cut off anywhere on the way
+    seen_ps = set()
+    for f_ in [fo] + [x for x in functions_under(it, fo.qualname, ctx.p) if x is not fo and _helper_like(x.qualname)]:
+        for sub in ast.walk(f_.node):
+            if isinstance(sub, ast.Subscript) and id(sub) not in seen_ps:
+                v_ = it.value_of(sub)
+                if v_ is not None and v_.positional_slice and (v_.counts_of is not None or v_.unique_of is not None) and not (div is not None and sub is div[0].left):
+                    seen_ps.add(id(sub))
+                    ctx.ob('R3', f_, sub, False, 'a fixed number of entries of the np.unique output is discarded by position: which state that is depends '
+                                                 'on the data (the NOSITE entry exists only when some atom is off-site), so a real site can lose its occupancy')
     if div is None:
         ctx.ob('R3', fo, 'counts / frames', None, 'normalisation of the state counts not recognised')
     else:
